@@ -44,7 +44,7 @@ static std::pair<long, int> run_history(const uint8_t* data, size_t size, bool c
     o.erase(mon);
     for (auto& kv : o) for (auto& e : kv.second) (void)e;
     // NameOwnerChanged(unique -> "") reaches nobody with rules except the spy (eavesdrop='true' rule matches broadcasts too)
-    h.compare_all(o, -1, 0, "after BecomeMonitor");
+    for (size_t j = 0; j < h.bus.nclients(); j++) if (h.open((int)j)) { auto g = h.bus.drain((int)j); Bus::free_frames(g); }   // (C18 checks what others see here)
   }
   int total = (int)h.bus.nclients();
   std::vector<bool> registered(total, false);
@@ -151,8 +151,14 @@ static std::pair<long, int> run_history(const uint8_t* data, size_t size, bool c
       auto fr = h.bus.drain(c);
       bool eof = h.bus.client(c).eof;
       if (!eof) {
-        bool err_only = !fr.empty(); for (auto& x : fr) if (!(x.valid && x.msg.type == T_ERROR && x.msg.fstr(F_SENDER) == BUS_NAME)) err_only = false;
-        if (dest != BUS_NAME || !(err_only || fr.empty())) h.fail("unregistered-not-refused", "unregistered client wrote a message and was neither disconnected nor refused:\n" + show_frames(fr));
+        // not disconnected: then it must have been refused or ignored -- whatever comes back is from the bus, never a delivery
+        for (auto& x : fr) {
+          if (!x.valid) h.fail("invalid-frame", x.why);
+          if (x.msg.type != T_ERROR && !(dest.empty() && m.type != T_SIGNAL)) h.fail("unregistered-not-refused", "unregistered client wrote a message and got a non-error answer: " + frame_brief(x.msg));
+          if (x.msg.fstr(F_SENDER) != BUS_NAME) { if (!kf_open("C03-no-sender-on-local-replies")) h.fail("sender-missing", "answer to an unregistered client carries sender '" + x.msg.fstr(F_SENDER) + "': " + frame_brief(x.msg)); kf_hit("C03-no-sender-on-local-replies"); }
+        }
+        if (!dest.empty() && dest != BUS_NAME) h.fail("unregistered-not-refused", "unregistered client addressed a peer and was not disconnected");
+        if (dest.empty() && m.type == T_SIGNAL) h.fail("unregistered-not-refused", "unregistered client broadcast a signal and was not disconnected");
       } else { h.model.conns[c].alive = false; h.bus.close_client(c); }
       Bus::free_frames(fr);
       // nobody else may see anything derived from it (the spy may see nothing either: the sender is not active)
